@@ -546,7 +546,11 @@ func applyLin(b *eventlogger.Broker, w *nodes.World, op model.Op) linOut {
 		case 2:
 			opts = append(opts, eventlogger.WithPipelineRegistrationPolicy(eventlogger.DenyOverwrite))
 		}
-		return linOut{ok: b.RegisterPipeline(eventlogger.Pipeline{PipelineID: eventlogger.PipelineID(op.P), EventType: eventlogger.EventType(op.ET), NodeIDs: ids}, opts...) == nil}
+		ok := b.RegisterPipeline(eventlogger.Pipeline{PipelineID: eventlogger.PipelineID(op.P), EventType: eventlogger.EventType(op.ET), NodeIDs: ids}, opts...) == nil
+		for i := range ids { // the caller owns this slice and reuses it
+			ids[i] = "overwritten-by-the-caller"
+		}
+		return linOut{ok: ok}
 	case "rmpipe":
 		_ = b.RemovePipeline(eventlogger.EventType(op.ET), eventlogger.PipelineID(op.P))
 		return linOut{}
